@@ -30,6 +30,9 @@ func c15One(x *ctx, c LoadCase, useBinary, binaryOnFail bool) bool {
 	defer os.RemoveAll(dir)
 	r := loadInProcess(dir, c)
 	r.release()
+	if exhausted(r) {
+		return false
+	}
 	x.res.Evaluations++
 	switch {
 	case r.hang:
